@@ -51,6 +51,34 @@ impl Minimiser<'_> {
 
     pub fn minimise(&mut self, plan: Plan) -> Plan {
         let mut best = plan;
+        // 0. environment and clock faults are positional (they fire at the n-th scheduling
+        // event), which makes dropping jobs non-monotonic. First try to turn them into initial
+        // conditions of the epoch: every EnvSet becomes an initial env entry, the last clock
+        // jump becomes the epoch's clock, and the decisions themselves become `Cont`.
+        {
+            let mut p = best.clone();
+            for e in &mut p.epochs {
+                for d in e.decisions.iter_mut() {
+                    match d.clone() {
+                        Decision::EnvSet(k, v) => {
+                            e.env.retain(|(k2, _)| *k2 != k);
+                            e.env.push((k, v));
+                            *d = Decision::Cont;
+                        }
+                        Decision::EnvUnset(_) => *d = Decision::Cont,
+                        Decision::Clock(t) => {
+                            e.clock_s = t;
+                            *d = Decision::Cont;
+                        }
+                        Decision::Cwd(_) => *d = Decision::Cont,
+                        _ => {}
+                    }
+                }
+            }
+            if p != best && self.fails(&p) {
+                best = p;
+            }
+        }
         // 1. epochs
         if best.epochs.len() > 1 {
             let epochs = best.epochs.clone();
